@@ -686,6 +686,58 @@ def nat_grad_nonconstant(rng):
     return fd_dev(ana, num, est) / max(1e-12, abs(num))
 
 
+def nat_grad_exactly_empty_state(rng):
+    """A state whose filling is exactly zero (minority channel of an open-shell atom; a user-set zero): the total energy still depends on its coefficients,
+    because Y = W (W^H O W)^-1/2 mixes all columns - the derivative along a direction that moves ONLY the empty column is 2 Re<get_grad, D> as well
+    (orthonormal and non-orthonormal W), and so is the derivative along a random direction."""
+    import eminus
+    from eminus import SCF, Atoms
+    from eminus.dft import get_grad, guess_random, orth
+    from eminus.energies import get_E
+
+    eminus.config.backend = "numpy"
+    eminus.config.verbose = "critical"
+    at = Atoms("Li", [[0.1, 0.2, 0.3]], ecut=4, a=[[6.0, 0.3, 0.1], [0.2, 6.5, 0.4], [0.5, 0.1, 7.0]], unrestricted=True)
+    at.s = [9, 9, 11]
+    at.set_k([[0.0, 0.0, 0.0], [0.2, 0.1, 0.0]], [0.3, 0.7])
+    scf = SCF(at, xc="lda,vwn", verbose="critical")
+    at = scf.atoms
+    f = np.asarray(at.occ.f)
+    empty = np.argwhere(f == 0)
+    if not len(empty) or f.shape[-1] < 2:
+        raise RuntimeError("harness: the open-shell case has no exactly empty state")
+    W = [np.array(w) for w in guess_random(scf)]
+    worst = 0.0
+    for kind in ("orthonormal", "non-orthonormal"):
+        Wk = [np.array(w) for w in orth(at, W)] if kind == "orthonormal" else [w @ (np.eye(w.shape[-1]) + 0.3 * rnd(rng, w.shape[-1], w.shape[-1])) for w in W]
+        for direction in ("only the empty column", "random"):
+            D = [rnd(rng, *w.shape) for w in Wk]
+            if direction == "only the empty column":
+                mask = [np.zeros(w.shape) for w in Wk]
+                for ik, sp, st in empty:
+                    mask[ik][sp, :, st] = 1.0
+                D = [d * m for d, m in zip(D, mask)]
+            nrm = np.sqrt(sum(np.linalg.norm(d) ** 2 for d in D))
+            D = [d / nrm for d in D]
+
+            def E(t, Wk=Wk, D=D):
+                scf.W = [w + t * d for w, d in zip(Wk, D)]
+                scf._precompute()
+                return get_E(scf)
+
+            scf.W = [w.copy() for w in Wk]
+            scf._precompute()
+            ana = 0.0
+            for ik in range(at.kpts.Nk):
+                for sp in range(at.occ.Nspin):
+                    g = np.asarray(get_grad(scf, ik, sp, scf.W, **scf._precomputed))
+                    ana += 2 * np.real(np.vdot(g, D[ik][sp]))
+            num, est = fd_slope(E)
+            # measured against the size of the energy changes a unit step produces (the slope along the empty column alone is small but not zero)
+            worst = max(worst, fd_dev(ana, num, est) / max(1e-3, abs(num)))
+    return worst
+
+
 def sym_grad_homogeneous():
     """get_grad is homogeneous of degree one in the fillings and proportional to wk (also: half fillings -> half gradient)."""
     ld, scf, at, pots, dft = _grad_env()
@@ -784,6 +836,13 @@ def sym_phi():
 
 def nat_phi(rng):
     e = 0.0
+    # the field depends on the density and the grid only: an object WITHOUT electrons (He 2+) used as the grid of a non-zero density
+    from eminus import Atoms
+
+    he = Atoms("He", [[0.0, 0.0, 0.0]], ecut=2, a=[[5.0, 0.3, 0.0], [0.0, 5.5, 0.2], [0.1, 0.0, 6.0]], charge=2)
+    he.s = [5, 4, 6]
+    he.build()
+    e = max(e, _nat_phi_err(rng, he))
     # samplings with s0 > s2 and s0 < s2 (anisotropic, even and odd), at the Gamma point and at ONE shifted k-point (the Hartree field
     # does not know about k-points)
     for s_, shift in (((6, 5, 4), None), ((4, 5, 7), None), ((6, 8, 10), None), ((5, 4, 6), [0.1, 0.0, 0.2])):
@@ -903,6 +962,16 @@ def nat_Ecoul(rng):
         e = max(e, abs(E - want) / max(1, abs(want)))
         e = max(e, abs(get_Ecoul(at, -3 * n) - 9 * E) / max(1, abs(E)))
         e = max(e, 0.0 if E >= 0 else 1.0)
+    # a field handed in by the caller: the energy is 1/2 int n phi for THAT field (cross energy of two densities, a scaled density with a fixed field), with the
+    # real-space field obtained by an explicit sum over the reciprocal vectors
+    n1, n2 = rng.random(at.Ns), rng.random(at.Ns)
+    phi2 = get_phi(at, n2)
+    phase = np.exp(1j * (np.asarray(at.r) @ np.asarray(at.G).T))
+    phi2_r = np.real(phase @ np.asarray(phi2))
+    dV = at.Omega / at.Ns
+    for dens, label in ((n1, "cross"), (2.5 * n2, "scaled")):
+        want = 0.5 * dV * float(np.sum(dens * phi2_r))
+        e = max(e, abs(float(get_Ecoul(at, dens, phi2)) - want) / max(1.0, abs(want)))
     return e
 
 
@@ -1054,6 +1123,12 @@ def _register_bounded2():
                                           what="slope of the total energy vs 2 Re<grad, D>: smeared fillings with empty states, k-weights (0.3, 0.7), orthonormal and non-orthonormal W"),
                         budget={"quick": 300, "thorough": 900},
                         doc="BOUNDED stand-in: derivative relation for non-constant fillings and unequal k-point weights (Li2, triclinic cell, odd grid)"))
+    register(Obligation(name="C01.total_energy.slope_eq_2Re_grad_D.exactly_empty_state", prop="C01", engine="B", bounded=True,
+                        functions=["eminus.dft:get_grad", "eminus.dft:Q", "eminus.dft:H", "eminus.energies:get_E"],
+                        run=BoundedNative(nat_grad_exactly_empty_state, 1, tol=1e-5,
+                                          what="slope of the total energy vs 2 Re<grad, D> for an open-shell atom with an exactly empty state: along the empty column alone and along a random direction"),
+                        budget={"quick": 300, "thorough": 900},
+                        doc="BOUNDED stand-in: the derivative relation holds for the coefficients of a state with filling exactly zero as well (Li, unrestricted, two weighted k-points)"))
     register(Obligation(name="C01.band_energy.slope_eq_2Re_grad_occ_D", prop="C01", engine="B", bounded=True,
                         functions=["eminus.band_minimizer:get_grad_occ", "eminus.band_minimizer:scf_step_occ"],
                         run=BoundedNative(nat_grad_occ, 2, tol=2e-6, what="slope of the band energy vs 2 Re<get_grad_occ, D> at orthonormal W, two k-points"),
@@ -1697,3 +1772,49 @@ register(Obligation(name="C05.H.column_by_column_for_many_orbitals", prop="C05",
                     run=BoundedNative(nat_H_many_columns, 1, tol=1e-10, what="H of a block of 1 ... 40 orbitals vs H of every orbital alone (LDA + GTH, TPSS)"),
                     budget={"quick": 300, "thorough": 600},
                     doc="BOUNDED: H acts column by column (additivity over the orbitals of a block) for blocks of up to 40 orbitals, every term of H"))
+
+
+def nat_spectrum_left_handed(rng):
+    """get_psi / get_epsilon in cells whose lattice vectors form a LEFT-handed set (the same physical lattices): eigenstates are orthonormal in the overlap metric
+    (psi^H O psi = +1), diagonalise the Hamiltonian in their span, and the eigenvalues of a random trial set lie above the exact lowest eigenvalues of the same
+    Hamiltonian in the full cut-off basis (Rayleigh-Ritz), GTH and harmonic potentials, one shifted k-point."""
+    import eminus
+    from eminus import SCF, Atoms
+    from eminus.dft import H as Hn, get_epsilon, get_psi
+
+    eminus.config.backend = "numpy"
+    eminus.config.verbose = "critical"
+    err = 0.0
+    for a in (np.array([[6.0, 0.0, 0.0], [0.0, 0.0, 6.0], [0.0, 6.0, 0.0]]), np.array([[0.2, 5.5, 0.4], [5.0, 0.3, 0.1], [0.5, 0.1, 6.0]])):
+        if np.linalg.det(a) >= 0:
+            raise RuntimeError("harness: the cell is not left-handed")
+        for atom, pot, unres in (("He", "gth", False), ("H", "harmonic", True)):
+            at = Atoms(atom, [[0.4, 0.3, 0.2]], ecut=2, a=a, unrestricted=unres)
+            at.set_k([[0.12, -0.05, 0.2]], [1.0])
+            scf = SCF(at, xc="lda,vwn", pot=pot, verbose="critical")
+            at = scf.atoms
+            ns = at.occ.Nspin
+            nb = len(at.Gk2c[0])
+            W = [rnd(rng, ns, nb, 3)]
+            scf.W = W
+            scf._precompute()
+            pre = scf._precomputed
+            psi = get_psi(scf, W, **pre)
+            eps = np.asarray(get_epsilon(scf, W, **pre))
+            full = [np.stack([np.eye(nb, dtype=complex)] * ns)]
+            for s in range(ns):
+                p = np.asarray(psi[0][s])
+                err = max(err, float(np.abs(p.conj().T @ np.asarray(at.O(p)) - np.eye(3)).max()))
+                sub = p.conj().T @ np.asarray(Hn(scf, 0, s, psi, **pre))
+                err = max(err, float(np.abs(sub - np.diag(np.diag(sub))).max()), float(np.abs(np.sort(np.diag(sub).real) - eps[0, s]).max()))
+                Hm = np.asarray(Hn(scf, 0, s, full, **pre))
+                exact = np.linalg.eigvalsh((Hm + Hm.conj().T) / 2)[:3] / abs(np.linalg.det(a))
+                err = max(err, float(max(0.0, np.max(exact - eps[0, s]))))
+    return err
+
+
+register(Obligation(name="C05.get_psi_get_epsilon.left_handed_cells", prop="C05", engine="B", bounded=True,
+                    functions=["eminus.dft:get_psi", "eminus.dft:get_epsilon", "eminus.dft:orth", "eminus.operators:O", "eminus.atoms:Atoms.a"],
+                    run=BoundedNative(nat_spectrum_left_handed, 1, tol=1e-9, what="eigenstates orthonormal, H diagonal in their span, eigenvalues above the exact ones, in left-handed cells (He / GTH, H / harmonic potential)"),
+                    budget={"quick": 300, "thorough": 600},
+                    doc="BOUNDED: orthonormal eigenstates and the variational bound eps >= exact eigenvalues in cells with a negative determinant of the lattice matrix"))
